@@ -82,3 +82,25 @@ REPLAY_PLANS = {
         simulate={"quick": [sim("U2", 64, 9, "Fam_C18", "NextSim_Measure", init="U2_Same"), sim("U3", 64, 9, "Fam_C18", "NextSim_Measure", init="U3_Same")],
                   "thorough": [sim("U2", 500, 11, "Fam_C18", "NextSim_Measure", init="U2_Same"), sim("U3", 500, 11, "Fam_C18", "NextSim_Measure", init="U3_Same")]}),
 }
+
+
+TRACE_PLANS = {
+    "C07": dict(
+        exhaustive={"quick": [("U1", 4, "Fam_All")], "thorough": [("U1", 5, "Fam_All")]},
+        simulate={"quick": [sim("U1", 64, 10, "Fam_All", "NextSim_Op"), sim("U2", 32, 10, "Fam_All", "NextSim_Op")],
+                  "thorough": [sim("U1", 500, 12, "Fam_All", "NextSim_Op"), sim("U2", 300, 12, "Fam_All", "NextSim_Op"),
+                               sim("U3", 200, 12, "Fam_All", "NextSim_Op")]},
+        drivers={"quick": (24, 20), "thorough": (400, 40)}),
+    "C13": dict(
+        exhaustive={"quick": [("U4", 4, "Fam_All")], "thorough": [("U4", 5, "Fam_All")]},
+        simulate={"quick": [sim("U2", 48, 11, "Fam_All", "NextSim_Struct"), sim("U3", 48, 11, "Fam_All", "NextSim_Struct")],
+                  "thorough": [sim("U2", 400, 13, "Fam_All", "NextSim_Struct"), sim("U3", 400, 13, "Fam_All", "NextSim_Struct"),
+                               sim("U1", 200, 12, "Fam_All", "NextSim_Struct")]},
+        drivers={"quick": (24, 20), "thorough": (400, 40)}),
+    "C20": dict(
+        exhaustive={"quick": [("U4", 4, "Fam_All")], "thorough": [("U4", 5, "Fam_All")]},
+        simulate={"quick": [sim("U2", 48, 11, "Fam_All", "NextSim_Comp"), sim("U3", 48, 11, "Fam_All", "NextSim_Comp")],
+                  "thorough": [sim("U2", 400, 13, "Fam_All", "NextSim_Comp"), sim("U3", 400, 13, "Fam_All", "NextSim_Comp"),
+                               sim("U1", 200, 12, "Fam_All", "NextSim_Comp")]},
+        drivers={"quick": (24, 20), "thorough": (400, 40)}),
+}
